@@ -211,11 +211,13 @@ def native_confirm(task, viol):
             for d in (0, 1, -1, 2, -2, 3, -3, 4, -4, 5, 6):
                 if scnt + d < 1:
                     continue
-                nr = native_run(task.text, task.entry, viol['inputs'], timeout=15,
-                                env_extra={'VP_PAUSE': '%d:%s:%d:%d' % (stid, skind, scnt + d, 500)})
+                envp = {'VP_PAUSE': '%d:%s:%d:%d' % (stid, skind, scnt + d, 900 if task.opts.get('child_first') else 500)}
+                if task.opts.get('child_first'):
+                    envp['VP_CHILD_FIRST'] = '150'
+                nr = native_run(task.text, task.entry, viol['inputs'], timeout=15, env_extra=envp)
                 bad = nr['rc'] != 0 or not nr['done'] or nr['timeout'] or (kind == 'assert' and viol['msg'] in nr['asserts'])
                 if bad and not (kind == 'assert' and viol['msg'] not in nr['asserts'] and nr['rc'] == 0):
-                    return True, 'native replay of the schedule (thread %d paused for 500 ms at its %d-th %s) fails: %s rc=%s %s' % (
+                    return True, 'native replay of the schedule (thread %d paused at its %d-th %s) fails: %s rc=%s %s' % (
                         stid, scnt + d, {'L': 'mutex acquisition', 'U': 'mutex release', 'S': 'thread start'}[skind],
                         'timed out (hang)' if nr['timeout'] else '', nr['rc'], nr['stderr'][-300:].replace('\n', ' | '))
     if task.opts.get('preempt_bound') and kind in ('memory', 'race', 'deadlock', 'assert', 'uncaught_exception', 'terminate'):
